@@ -145,7 +145,7 @@ def stage(ctx, st, n, length, predicates):
     records violations / broken ties in ctx / st"""
     rnd = random.Random(ctx.seed + 77)
     cases = [gen_case(rnd, length) for _ in range(n)]
-    impl = ctx.run_impl("impl_dimlink.py", {"cases": cases}, timeout=3000)
+    impl = ctx.run_impl_cases("impl_dimlink.py", cases, jobs=8, timeout=3000)
     failures = []
     for c, obs in zip(cases, impl):
         for i, x in enumerate(obs):
